@@ -12,6 +12,7 @@ mod modules;
 mod orders;
 mod gctrace;
 mod rng;
+mod stepbudget;
 mod pathnorm;
 mod prog;
 
@@ -25,6 +26,7 @@ fn main() {
         "pathnorm" => pathnorm::main(&rest),
         "gcreplay" => gcreplay::main(&rest),
         "gctrace" => gctrace::main(&rest),
+        "stepbudget" => stepbudget::main(&rest),
         "errloc" => errloc::main(&rest),
         "entry" => entry::main(&rest),
         "lifecycle" => lifecycle::main(&rest),
